@@ -195,6 +195,29 @@ def run(ctx):
             for bi, u in enumerate(bases if shortest else bases[:1]):
                 reqs.append(dict(op="tree", orders=orders if shortest else [], u=u.tolist(), ns=[n for n in ns], **lat))
                 meta.append((name, l, shortest, tree, bi, ns, flipped))
+    # ---- long trees (more than 53 edges): integers beyond 2^53, digit by digit.  The tree bonds must spell the binary digits of n (most significant first) and
+    #      neighbouring integers must give different sectors
+    for name, l in [("honey8", eg.honeycomb_lattice(8)), ("vor150", zoo.voronoi(rng, 150))] + ([] if quick else [("vor400", zoo.voronoi(rng, 400))]):
+        try:
+            tree = gu.plaquette_spanning_tree(l)
+            T = len(tree)
+            if T < 54 or np.any(np.asarray(tree) < 0):
+                continue
+            base = (1 - 2 * rng.integers(0, 2, size=l.n_edges)).astype(np.int8)
+            big = [2 ** 53 + 1, 2 ** T - 1, 2 ** (T - 1) + 1, (2 ** T - 1) // 3] + [int(rng.integers(0, 2 ** 62)) * 2 ** (T - 62) + int(rng.integers(0, 2 ** 30)) for _ in range(6 if quick else 40)]
+            for n in big:
+                n = n % (2 ** T)
+                rep = lambda what: ctx.impl_violation(f"{name}: n_to_ujk_flipped({n}) {what}", dict(case=name, generator=name, n=str(n), tree_edges=T))
+                v = ff.n_to_ujk_flipped(n, base, tree)
+                digits = np.array([(n >> (T - 1 - i)) & 1 for i in range(T)])
+                if not np.array_equal(np.asarray(v)[tree], 1 - 2 * digits):
+                    rep(f"does not set the tree bonds to the binary digits of n ({int(np.sum(np.asarray(v)[tree] != 1 - 2 * digits))} of {T} bonds differ)"); break
+                w = ff.n_to_ujk_flipped(n ^ 1, base, tree)
+                if np.array_equal(ff.fluxes_from_ujk(l, v), ff.fluxes_from_ujk(l, w)):
+                    rep("and its neighbour n xor 1 give the same flux sector"); break
+                ctx.case((name, "long-tree", str(n)), nontrivial=True)
+        except Exception as ex:
+            ctx.impl_violation(f"{name}: long-tree enumeration raised {type(ex).__name__}: {ex}", dict(case=name, generator=name))
     # ---- churn (lattices built, used once, dropped: re-used addresses) and representations of the base configuration (dtype, layout, writability)
     import variants
     for name, l in zoo.churn(rng, 30 if quick else 300, lo=4, hi=14):
